@@ -24,6 +24,9 @@ type C13Cfg struct {
 	Sess C04Cfg   `json:"sess"`
 	IDs  []uint16 `json:"ids"`
 	Enum bool     `json:"enum"` // from the exhaustive pair/triple enumeration
+	// DirectOrder, when set: the BLS / PS key generators are used directly (no orchestrator), with the party list
+	// handed to every Init in exactly this order - which need not be ascending
+	DirectOrder []uint16 `json:"directOrder,omitempty"`
 }
 
 // enumIDs returns the i-th pair or triple of boundary identifiers (nil when the
@@ -115,7 +118,15 @@ func genC13(seed uint64, index int, tier string) C13Cfg {
 		c.Deploy.Threshold = c.T - 1
 		c.Deploy.PSMsgLen = 1 + int(x*1000)%3
 	}
-	return C13Cfg{Sess: c, IDs: ids, Enum: enum}
+	out := C13Cfg{Sess: c, IDs: ids, Enum: enum}
+	if rd := prng.Derive(seed, "direct-order"); (c.Deploy.Backend == "bls" || c.Deploy.Backend == "ps") && rd.Bool(0.4) {
+		out.DirectOrder = append([]uint16(nil), ids...)
+		for i := len(out.DirectOrder) - 1; i > 0; i-- {
+			j := rd.Intn(i + 1)
+			out.DirectOrder[i], out.DirectOrder[j] = out.DirectOrder[j], out.DirectOrder[i]
+		}
+	}
+	return out
 }
 
 type c13Outcome struct {
@@ -147,6 +158,49 @@ func runC13(t *testing.T, spec RunSpec) *RunResult {
 	res.ConfigKey = fmt.Sprintf("n=%d %s %s %s ids>=256:%d", len(cfg.IDs), cfg.Sess.Deploy.Backend, mode, cfg.Sess.Op, hi)
 	restore := seedCryptoRand(spec.Seed)
 	defer restore()
+
+	if cfg.DirectOrder != nil {
+		// direct use of the MPC API with a party list in arbitrary order: the key generation must complete and the
+		// reported public parameters must serve every signer subset
+		sc := cfg.Sess
+		res.ConfigKey = fmt.Sprintf("n=%d %s direct-api party-list-order=%v ids>=256:%d", len(cfg.IDs), sc.Deploy.Backend, !sort.SliceIsSorted(cfg.DirectOrder, func(i, j int) bool { return cfg.DirectOrder[i] < cfg.DirectOrder[j] }), hi)
+		t13 := sc.T
+		if t13 < 2 {
+			t13 = 2
+		}
+		var shares map[uint16][]byte
+		var lg *CountLogger
+		bubble(t, func() {
+			w := netsim.NewWorld(spec.Seed)
+			w.Serial = true
+			trace(spec, res.Cfg, w)
+			lg = NewCountLogger()
+			var calls []*netsim.Call
+			var ss *netsim.ScriptSched
+			shares, calls, ss = runDirectDKG(spec, w, sc.Deploy.Backend, cfg.DirectOrder, t13, sc.Deploy.PSMsgLen, sc.Strategy, lg)
+			res.Violations = append(res.Violations, panicViolations(w, "C13/panic")...)
+			if len(shares) != len(cfg.DirectOrder) && len(res.Violations) == 0 {
+				res.Violations = append(res.Violations, netsim.Violation{Invariant: "C13/direct-keygen", Class: "C13/direct-keygen", Detail: fmt.Sprintf("fault-free key generation with the party list %v did not complete everywhere: %s", cfg.DirectOrder, callSummary(calls))})
+			}
+			fillResult(res, w, ss)
+		})
+		if len(res.Violations) == 0 {
+			var prob string
+			var n int
+			if sc.Deploy.Backend == "bls" {
+				prob, n = blsOracle(cfg.DirectOrder, t13, shares, prng.Derive(spec.Seed, "digests"), lg)
+			} else {
+				prob, n = psOracle(cfg.DirectOrder, cfg.DirectOrder, t13, max(sc.Deploy.PSMsgLen, 1), shares, prng.Derive(spec.Seed, "messages"), lg, 1)
+			}
+			res.Probes["subsets-verified"] = n
+			if prob != "" {
+				res.Violations = append(res.Violations, netsim.Violation{Invariant: "C13/serialisation", Class: "C13/serialisation", Detail: fmt.Sprintf("party list %v: %s", cfg.DirectOrder, prob)})
+			}
+		}
+		res.Nontrivial = hi > 0
+		res.Fingerprint = fmt.Sprintf("direct/%v/%s", cfg.DirectOrder, res.Fingerprint)
+		return res
+	}
 
 	run := func(ids []uint16, twin bool, res *RunResult) c13Outcome {
 		var oc c13Outcome
